@@ -165,6 +165,54 @@ mod verif_l2_amend {
         kani::cover!(true, "reach_end");
     }
 
+    //@ob id=L2.amend.empty flags=noassert props=C12,C11,C01 tier=quick kind=harness fns=plane/from_downlink.rs:update_from_downlink
+    //@region default path, row <- a record WITHOUT an address (what DF::from_message builds for DF18, DF19, DF22..31: an accepted frame of a format the default path does not decode), every record variant x every row: the last-contact time stamp still restarts (C12: every accepted frame of any format), nothing else changes
+    #[kani::proof]
+    #[kani::unwind(34)]
+    #[kani::stub(chrono::Utc::now, now_rec)]
+    #[kani::stub(crate::decoder::plane::Plane::update_position, pos_rec)]
+    fn l2_amend_empty() {
+        let which: u8 = kani::any();
+        let dl = match which % 3 {
+            0 => {
+                let mut r = any_srt();
+                r.icao = None;
+                DF::SRT(r)
+            }
+            1 => {
+                let mut r = any_ext();
+                r.icao = None;
+                DF::EXT(r)
+            }
+            _ => {
+                let mut r = any_mds();
+                r.icao = None;
+                DF::MDS(r)
+            }
+        };
+        let old = any_plane(false);
+        let mut new = clone_plane(&old);
+        new.update_from_downlink(&dl);
+        check_clock(&new);
+        keep_rest(&old, &new);
+        keep_altitude(&old, &new);
+        keep_squawk(&old, &new);
+        keep_ca(&old, &new);
+        keep_gnss(&old, &new);
+        keep_callsign(&old, &new);
+        keep_category(&old, &new);
+        keep_velocity(&old, &new);
+        keep_vrate(&old, &new);
+        keep_heading(&old, &new);
+        keep_cpr(&old, &new);
+        keep_position(&old, &new);
+        keep_surface(&old, &new);
+        keep_status_version(&old, &new);
+        keep_type_code(&old, &new);
+        kani::cover!(which % 3 == 0, "empty short record");
+        kani::cover!(true, "reach_end");
+    }
+
     fn amend_ext(tc_lo: u32, tc_hi: u32) {
         let r = any_ext();
         kani::assume(r.icao.is_some());
